@@ -516,3 +516,12 @@ def multisig_order(ctx):
         return
     body = unparse(lp)
     ctx.require('signatures[sigcount]' in body and 'sigcount += 1' in body, q, 'the signature cursor is not advanced on success only', lp)
+
+
+@PROP.obligation('C19.cache-keys')
+def cache_keys(ctx):
+    """Memoisation (script evaluation): every container that a function both looks up and stores into is found (none exists on the reference tree; a
+    fixture self-test keeps the detector honest) and the key that is looked up must carry every parameter - and for containers shared
+    between objects every attribute of self - that the cached value depends on through data or control flow."""
+    from .common_cache import cache_keys as run
+    run(ctx, [('scripts', lambda q: True)], 'scripts')
